@@ -56,6 +56,10 @@ Create(d, v) == /\ st[d] = "absent"
 Update(d, f, v) == /\ st[d] = "live" /\ f \in Known
                    /\ vals' = [vals EXCEPT ![d][f] = v] /\ ncommits' = [ncommits EXCEPT ![d] = @ + 1]
                    /\ UNCHANGED <<st, nver, active, indexes, vpar>> /\ Log([E("update") EXCEPT !.d = d, !.f = f, !.v = v])
+\* the same update made on another node (same schema history) and merged here through the replication path
+RemoteUpdate(d, f, v) == /\ st[d] = "live" /\ f \in Known
+                         /\ vals' = [vals EXCEPT ![d][f] = v] /\ ncommits' = [ncommits EXCEPT ![d] = @ + 1]
+                         /\ UNCHANGED <<st, nver, active, indexes, vpar>> /\ Log([E("remoteupdate") EXCEPT !.d = d, !.f = f, !.v = v])
 Delete(d) == /\ st[d] = "live" /\ st' = [st EXCEPT ![d] = "deleted"] /\ ncommits' = [ncommits EXCEPT ![d] = @ + 1]
              /\ UNCHANGED <<vals, nver, active, indexes, vpar>> /\ Log([E("delete") EXCEPT !.d = d])
 \* a patch derives version nver+1 from the active version, adding field nver+1; setAsDefault makes it active
@@ -76,7 +80,7 @@ Restart == /\ UNCHANGED <<st, vals, ncommits, nver, active, indexes, vpar>> /\ L
 
 Next == /\ steps < MaxSteps
         /\ \/ \E d \in Docs, v \in 0..MaxVal : Create(d, v)
-           \/ \E d \in Docs, f \in Fields, v \in 0..MaxVal : Update(d, f, v)
+           \/ \E d \in Docs, f \in Fields, v \in 0..MaxVal : Update(d, f, v) \/ RemoteUpdate(d, f, v)
            \/ \E d \in Docs : Delete(d)
            \/ \E b \in BOOLEAN : Patch(b)
            \/ \E k \in 1..MaxVer : SetActive(k)
